@@ -360,6 +360,22 @@ def main(tier, seed, replay=None):
                 rel_case = {"sg": rdflib.Graph().parse(data=rs_text, format="turtle"), "data": rdflib.Graph().parse(data=rd_text, format="turtle", publicID="http://ex.org/")}
                 for fmt in GRAPH_FORMATS + ["human", "table"]:
                     cli_jobs.append((rel_case, ref_rel, fmt, ["-s", rs_path, "-f", fmt, rd_path], {}))
+        # a blank value node whose description nests blank nodes far deeper than the report copies: whatever is left out, nothing but
+        # the report reaches the standard output of the command line
+        deep = "\"leaf\""
+        for _k in range(14):
+            deep = "[ ex:q %s ; ex:r %d ]" % (deep, _k)
+        dd_text = "@prefix ex: <http://ex.org/> .\nex:a a ex:T ; ex:p %s .\n" % deep
+        ds_text = "@prefix sh: <http://www.w3.org/ns/shacl#> . @prefix ex: <http://ex.org/> .\nex:DS a sh:NodeShape ; sh:targetClass ex:T ; sh:property [ sh:path ex:p ; sh:nodeKind sh:IRI ] .\n"
+        dd_path, dsp_path = os.path.join(d, "deep_data.ttl"), os.path.join(d, "deep_shapes.ttl")
+        open(dd_path, "w").write(dd_text)
+        open(dsp_path, "w").write(ds_text)
+        ref_deep = S.run_validate(dd_path, dsp_path)
+        if ref_deep[0] == "ok":
+            stats["deep_blank_value_cli_cases"] = 1
+            deep_case = {"sg": rdflib.Graph().parse(data=ds_text, format="turtle"), "data": rdflib.Graph().parse(data=dd_text, format="turtle")}
+            for fmt in GRAPH_FORMATS + ["human", "table"]:
+                cli_jobs.append((deep_case, ref_deep, fmt, ["-s", dsp_path, "-f", fmt, dd_path], {}))
         with ThreadPoolExecutor(max_workers=12) as ex:
             outs = list(ex.map(lambda job: c16.cli_run(job[3]), cli_jobs))
         for (c, ref, fmt, args, opts), (code, out, err) in zip(cli_jobs, outs):
